@@ -37,6 +37,13 @@ func (h *Header) Hash() common.Hash {
 func (h Header) ValidateBasic() error {
 	number := h.Height.RevisionHeight
 
+	if len(h.Bloom) > bloomByteLength {
+		return sdkerrors.Wrapf(ErrInvalidGenesisBlock, "header Bloom too long: %d > %d", len(h.Bloom), bloomByteLength)
+	}
+	if len(h.Nonce) > nonceByteLength {
+		return sdkerrors.Wrapf(ErrInvalidGenesisBlock, "header Nonce too long: %d > %d", len(h.Nonce), nonceByteLength)
+	}
+
 	// Check that the extra-data contains the vanity, validators and signature.
 	if len(h.Extra) < extraVanity {
 		return sdkerrors.Wrap(ErrMissingVanity, "header Extra")
